@@ -456,7 +456,96 @@ def _run(pname, form, tier, seed):
     return run
 
 
+# --------------------------------------------------------------------------------------------
+# Rejuvenate whose arguments change in the same edit: a StaticRequest in which a sibling Update moves
+# the upstream choice feeding the rejuvenated address.  weight(total) = log p(x_new, y') + log q(y | y')
+# - log p(x, y) - log q(y' | y)
+
+SIBLING = {
+    # name: (model, y-kind, proposal params fn(current y), new x values)
+    "flip2/const_y": ("flip2", "flip", lambda y: (0.6,), (True, False)),
+    "flip2/walk_y": ("flip2", "flip", lambda y: (_w(y, 0.7, 0.2),), (True, False)),
+    "lin2/walk_y": ("lin2", "normal", lambda y: (y, 0.5), (0.9, -0.4)),
+    "lin2/const_y": ("lin2", "normal", lambda y: (0.2, 0.8), (0.9, -0.4)),
+}
+
+
+def _run_sibling(name, tier, seed):
+    mname, ykind, qfn, xnews = SIBLING[name]
+    mspec = MODELS[mname]
+
+    def run(ctx):
+        import jax
+        import jax.numpy as jnp
+        from genjax import ChoiceMap, Update, flip, normal
+        from genjax._src.generative_functions.static import StaticRequest
+        from genjax.inference.requests import Rejuvenate
+
+        from .. import seam
+        from ..harness import base_key
+
+        key = base_key(seed)
+        zs = seam.Z_ALPHABET
+        model = build_model(mname)
+        msites = mspec["sites"]
+        kinds = {addr: kind for addr, kind, _ in msites}
+        dist = flip if ykind == "flip" else normal
+        W = jnp.where
+        mapping = {
+            "flip2/const_y": lambda chm: (0.6,),
+            "flip2/walk_y": lambda chm: (W(chm.get_value(), 0.7, 0.2),),
+            "lin2/walk_y": lambda chm: (chm.get_value(), 0.5),
+            "lin2/const_y": lambda chm: (0.2, 0.8),
+        }[name]
+        comp, op, klass = "Rejuvenate.edit", "edit:site+sibling_update", "arguments_change_in_same_edit"
+        for si, start in enumerate(mspec["starts"](2)):
+            chm = ChoiceMap.empty()
+            for a in ("x", "y"):
+                chm = chm | ChoiceMap.kw(**{a: _jval(kinds[a], start[a])})
+            tr, _ = model.importance(key, chm, ())
+            lp_old = model_logp(msites, start)
+            for xn in xnews:
+                if _same(kinds["x"], xn, start["x"]):
+                    continue
+                req = StaticRequest({"x": Update(ChoiceMap.choice(_jval(kinds["x"], xn))), "y": Rejuvenate(dist, mapping)})
+
+                def edit(k, tr):
+                    new_tr, w, _rd, _bwd = req.edit(k, tr, ())
+                    c = new_tr.get_choices()
+                    return dict(w=w, score=new_tr.get_score(), x=c["x"], y=c["y"])
+
+                detail0 = dict(model=mname, proposal=name, start=start, new_x=xn)
+                try:
+                    with seam.seam(n_cont=len(zs)):
+                        paths, _ = seam.explore(lambda: edit(key, tr), max_paths=64)
+                except Exception as e:
+                    ctx.ev((name, si, repr(xn), "raised"), nontrivial=True)
+                    ctx.fail(comp, op, klass, f"exception:{type(e).__name__}", dict(**detail0, error=str(e)[:300]))
+                    continue
+                for p in paths:
+                    r = p.result
+                    ctx.ev((name, si, repr(xn), repr(np.asarray(r["y"]).tolist())), nontrivial=True)
+                    ynew = bool(r["y"]) if ykind == "flip" else float(r["y"])
+                    if not _same(kinds["x"], r["x"], xn):
+                        ctx.fail(comp, op, klass, "choices", dict(**detail0, reason="sibling update not installed"))
+                        continue
+                    new_ref = dict(x=xn, y=ynew)
+                    lp_new = model_logp(msites, new_ref)
+                    fwd = lp_site(ykind, qfn(start["y"]), ynew)
+                    bwd = lp_site(ykind, qfn(ynew), start["y"])
+                    w_ref = lp_new + bwd - lp_old - fwd
+                    if not close(r["score"], lp_new):
+                        ctx.fail(comp, op, klass, "score", dict(**detail0, new=new_ref, expected=lp_new, actual=float(r["score"])))
+                    if not close(r["w"], w_ref):
+                        ctx.fail(comp, op, klass, "weight", dict(**detail0, new=new_ref, expected=w_ref, actual=float(r["w"])))
+            ctx.sample(dict(model=mname, proposal=name, start=start))
+
+    return run
+
+
 def cases(tier, seed):
+    for name in SIBLING:
+        yield Case(f"sibling/{name}", _run_sibling(name, tier, seed), dict(proposal=name, form="site+sibling_update"))
     for pname, spec in PROPOSALS.items():
         if tier == "quick" and spec["model"] == "cat2":
             continue
